@@ -11,26 +11,13 @@
                object and at most once.  (That the program does not `del` an object twice or `del` an object a live owner
                owns is *not* needed by the model — identities are never reused in it — but is needed for the model to
                speak about the C code, where a freed address can be handed out again: it is an assumption of the check.)
+  `WellFormed`, `final ops` (collector state after the history), `ghost ops` (program-side bookkeeping: identities
+  allocated, raw objects not yet `del_raw`ed, objects allocated while stopped) are defined in Lemmas/LifeInv.lean.
 -/
 import CelloProofs.Lemmas.LifeInv
 import Cello.LifecycleSrc
 
 namespace Cello.Life
-
-/-- a history run by a fresh collector meets the program's obligations -/
-def WellFormed (ops : List Op) : Prop := WF Ghost.init St.init ops
-
-instance (ops : List Op) : Decidable (WellFormed ops) := by unfold WellFormed; infer_instance
-
-/-- collector state after the history -/
-def final (ops : List Op) : St := run Cfg.current St.init ops
-
-/-- program-side bookkeeping after the history: identities allocated, raw objects not yet `del_raw`ed, objects
-    allocated with `new`/`new_root` while the collector was stopped -/
-def ghost (ops : List Op) : Ghost := grun Ghost.init St.init ops
-
-theorem inv_final (ops : List Op) (h : WellFormed ops) : Inv (ghost ops) (final ops) :=
-  inv_run ops _ _ Inv.init h
 
 /-- **the code that exists is the code the theorems are about**: the translator reads from src/GC.c whether
     `GC_Rem_Ptr` finalises a pending object it strikes off and whether `GC_Sweep` clears a pending slot before finalising
